@@ -1626,6 +1626,13 @@ EnsureSizeAux(uint32 size, bool setNumItems, uint32 extraPreallocs, ItemType ** 
 {
    if (retOldArray) *retOldArray = NULL;  // default value, will be set non-NULL iff the old array needs deleting later
 
+   if (size < _itemCount)
+   {
+      // The reallocation code below copies all of our current items into the new array, so it must never be asked for an array smaller than our current item-count
+      if (setNumItems) (void) RemoveTailMulti(_itemCount-size);  // these items are going away anyway, so get rid of them now
+                  else size = _itemCount;                        // (allowShrink) may reduce the number of slots, but never below the number of items we hold
+   }
+
    if ((_queue == NULL)||(allowShrink ? (_queueSize != (size+extraPreallocs)) : (_queueSize < size)))
    {
       const uint32 sqLen = ARRAYITEMS(_smallQueue);
